@@ -67,11 +67,12 @@ Next ==
                                       !.invite = Val(i, str)]
              /\ tm' = m
      \/ /\ part = "send"
-        /\ \E mode \in {"entry", "default"}, ed \in Rel, sd \in Rel, em \in Rel, et \in Rel :
+        /\ \E mode \in {"entry", "default"}, ed \in Rel, sd \in Rel, em \in Rel, et \in Rel, i \in Rel, e3 \in {"absent", "gt"} :
              LET a == Actor(mode, "absent") IN
              /\ pl' = [EmptyPL EXCEPT !.users = a.users, !.users_default = a.ud, !.events_default = Val(ed, str),
-                                      !.state_default = Val(sd, str),
-                                      !.events = MapOf("m.room.message", em, str) @@ MapOf("m.room.topic", et, str)]
+                                      !.state_default = Val(sd, str), !.invite = Val(i, str),
+                                      !.events = MapOf("m.room.message", em, str) @@ MapOf("m.room.topic", et, str)
+                                                 @@ MapOf("m.room.third_party_invite", e3, str)]
              /\ tm' = "join"
      \/ /\ part = "notif"
         /\ \E mode \in {"entry", "default"}, n \in Rel :
@@ -87,6 +88,9 @@ Allowed(ev) == Auth(St, ev, R)[1]
 MemberEvent(m) == [MemberBy(UA, UB, m) EXCEPT !.id = "$e"]
 MsgEvent == Ev("$e", "m.room.message", UA, FALSE, "", C0)
 TopicEvent == Ev("$e", "m.room.topic", UA, TRUE, "", C0)
+\* the same type sent without a state key is a message-like event: `events[type]` or `events_default`
+TopicAsMessage == Ev("$e", "m.room.topic", UA, FALSE, "", C0)
+TpiEvent == Ev("$e", "m.room.third_party_invite", UA, TRUE, "tok9", C0)
 
 Specified == StateWellFormed(St, R)
 Iff(h, verdict) == (h /\ verdict = "allow") \/ (~h /\ verdict = "reject")
@@ -100,6 +104,8 @@ Equiv ==
     /\ (tm \in {"leave", "absent"} => Iff(HCanInvite(EPL, UA.name), Allowed(MemberEvent("invite"))))
     /\ Iff(HCanSendMessage(EPL, UA.name, "m.room.message"), Allowed(MsgEvent))
     /\ Iff(HCanSendState(EPL, UA.name, "m.room.topic"), Allowed(TopicEvent))
+    /\ Iff(HCanSendMessage(EPL, UA.name, "m.room.topic"), Allowed(TopicAsMessage))
+    /\ Iff(HCanSendState(EPL, UA.name, "m.room.third_party_invite"), Allowed(TpiEvent))
     /\ (HCanNotifyRoom(EPL, UA.name) <=> NotifPermission(EPL, UA.name))
     /\ HForUser(EPL, UA.name) = UserLevel(St, UA, R)
     /\ HForUser(EPL, UB.name) = UserLevel(St, UB, R)
@@ -114,6 +120,8 @@ Emit == phase = 1 =>
      ban |-> HCanBanUser(EPL, UA.name, UB.name), kick |-> HCanKickUser(EPL, UA.name, UB.name),
      unban |-> HCanUnbanUser(EPL, UA.name, UB.name), invite |-> HCanInvite(EPL, UA.name),
      msg |-> HCanSendMessage(EPL, UA.name, "m.room.message"), topic |-> HCanSendState(EPL, UA.name, "m.room.topic"),
+     topicmsg |-> HCanSendMessage(EPL, UA.name, "m.room.topic"), tpi |-> HCanSendState(EPL, UA.name, "m.room.third_party_invite"),
+     a_topicmsg |-> Allowed(TopicAsMessage), a_tpi |-> Allowed(TpiEvent),
      notif |-> HCanNotifyRoom(EPL, UA.name), la |-> HForUser(EPL, UA.name), lb |-> HForUser(EPL, UB.name),
      a_ban |-> Allowed(MemberEvent("ban")), a_leave |-> Allowed(MemberEvent("leave")),
      a_invite |-> Allowed(MemberEvent("invite")), a_msg |-> Allowed(MsgEvent), a_topic |-> Allowed(TopicEvent) ])>>)
